@@ -158,6 +158,7 @@ class Infeasible(Exception):
 
 
 FM_LIMIT = 4000
+WJ_LIMIT = 36
 ENT_OVF = 0
 
 
@@ -238,6 +239,8 @@ class CSet:
             else:
                 rest.append(c)
         out = dict.fromkeys(rest)
+        if len(pos) * len(neg) > 4 * FM_LIMIT:
+            raise OverflowError("FM blowup")
         for p in pos:
             for n in neg:
                 kp, kn = p.e.t[a], -n.e.t[a]
@@ -416,6 +419,7 @@ def weak_join(a, b, relax=True, thresholds=None):
     if b.bottom:
         return a.copy()
     r = CSet()
+    relaxed = []
     def side(x, y):
         for c in sorted(x.cons, key=lambda c: c.key()):
             if y.entails(c):
@@ -432,8 +436,17 @@ def weak_join(a, b, relax=True, thresholds=None):
                             ts = [t for t in thresholds if t >= d]
                             if not ts: continue
                             d = min(ts)
-                        r.add(Con(h.e + d, "ge"))
+                        relaxed.append(Con(h.e + d, "ge"))
     side(a, b); side(b, a)
+    # relaxed half-spaces are a precision bonus; keep the polyhedron small (dropping a constraint is always sound):
+    # the tightest per direction, few-atom ones first, and none at all beyond WJ_LIMIT constraints
+    relaxed = CSet._prune(relaxed)
+    relaxed.sort(key=lambda c: (len(c.e.t), c.key()))
+    for c in relaxed:
+        if len(r.cons) >= WJ_LIMIT:
+            break
+        r.add(c)
+    r.cons = set(CSet._prune(r.cons))
     return r
 
 
